@@ -299,6 +299,82 @@ def sendAll (isClient : Bool) : Rng → List (Nat × List UInt8) → List UInt8 
 def acceptKey (key : List UInt8) : List UInt8 :=
   Codec.encodeBase64 (Sha1.Impl.hash (key ++ guid))
 
+/-! ### `WebSocketServer::serve(Socket)`: request line, header lines, `process` -/
+
+/-- `myisspace` -/
+def isSp (c : UInt8) : Bool := c == 32 || c == 10 || c == 13 || c == 9
+
+/-- `String::trim` / `trimmed` -/
+def trimB (s : List UInt8) : List UInt8 := ((s.dropWhile isSp).reverse.dropWhile isSp).reverse
+
+/-- `Socket::readLine()`: the bytes before the next `\n` (a `\r` stays), the rest of the stream after it;
+    at the end of the stream whatever is left, then empty lines -/
+def readLine (inp : List UInt8) : List UInt8 × List UInt8 :=
+  (inp.takeWhile (· != 10), (inp.dropWhile (· != 10)).drop 1)
+
+def isAlnum (c : UInt8) : Bool := (48 ≤ c && c ≤ 57) || (65 ≤ c && c ≤ 90) || (97 ≤ c && c ≤ 122)
+def toUpperB (c : UInt8) : UInt8 := if 97 ≤ c ∧ c ≤ 122 then c - 32 else c
+def toLowerB (c : UInt8) : UInt8 := if 65 ≤ c ∧ c ≤ 90 then c + 32 else c
+
+/-- `cname`: upper case at the start and after every non-alphanumeric byte, lower case elsewhere -/
+def capName : Bool → List UInt8 → List UInt8
+  | _, [] => []
+  | cap, c :: t => (if cap then toUpperB c else toLowerB c) :: capName (!isAlnum c) t
+
+/-- one header line: `line = line.trim(); c = indexOf(':'); name = substring(0, c);`
+    `value = line.substring(c + 1).trimmed()` (the repaired form: the space after the colon is optional) -/
+def headerField (line : List UInt8) : Option (List UInt8 × List UInt8) :=
+  let l := trimB line
+  let name := l.takeWhile (· != 58)
+  if name.length = l.length then none            -- no colon
+  else some (capName true name, trimB (l.drop (name.length + 1)))
+
+abbrev Headers := List (List UInt8 × List UInt8)
+
+/-- `headers[name] = value` (a later line replaces an earlier one) -/
+def setHeader (h : Headers) (k v : List UInt8) : Headers := (k, v) :: h.filter (·.1 != k)
+def getHeader (h : Headers) (k : List UInt8) : List UInt8 := ((h.find? (·.1 == k)).map (·.2)).getD []
+def hasHeader (h : Headers) (k : List UInt8) : Bool := (h.find? (·.1 == k)).isSome
+
+/-- `String::split(", ")` -/
+def splitCommaSp : List UInt8 → List UInt8 → List (List UInt8)
+  | cur, [] => [cur.reverse]
+  | cur, [x] => [(x :: cur).reverse]
+  | cur, x :: y :: t => if x == 44 && y == 32 then cur.reverse :: splitCommaSp [] t else splitCommaSp (x :: cur) (y :: t)
+
+/-- the header loop `while (line = readLine(), line != "\r")`; `none` = a line without colon (or the
+    end of the stream): the connection is closed without an answer -/
+def readHeaders : Nat → List UInt8 → Headers → Option Headers
+  | 0, _, _ => none
+  | fuel + 1, inp, h =>
+    let (line, rest) := readLine inp
+    if line == [13] then some h
+    else match headerField line with
+      | none => none
+      | some (k, v) => readHeaders fuel rest (setHeader h k v)
+
+def strUpgrade : List UInt8 := [85, 112, 103, 114, 97, 100, 101]                       -- "Upgrade"
+def strWebsocket : List UInt8 := [119, 101, 98, 115, 111, 99, 107, 101, 116]           -- "websocket"
+def strConnection : List UInt8 := [67, 111, 110, 110, 101, 99, 116, 105, 111, 110]     -- "Connection"
+def strKey : List UInt8 := [83, 101, 99, 45, 87, 101, 98, 115, 111, 99, 107, 101, 116, 45, 75, 101, 121]   -- "Sec-Websocket-Key"
+def strProtocol : List UInt8 :=
+  [83, 101, 99, 45, 87, 101, 98, 115, 111, 99, 107, 101, 116, 45, 80, 114, 111, 116, 111, 99, 111, 108]   -- "Sec-Websocket-Protocol"
+
+/-- everything `WebSocketServer::serve(Socket)` writes for the request bytes `req` (then end of stream) -/
+def serverHandshake (req : List UInt8) : List UInt8 :=
+  let (head, rest) := readLine req
+  -- method and resource: two spaces are needed in the request line
+  let afterSp := (head.dropWhile (· != 32)).drop 1
+  if (head.takeWhile (· != 32)).length = head.length then []
+  else if (afterSp.takeWhile (· != 32)).length = afterSp.length then []
+  else match readHeaders (req.length + 2) rest [] with
+    | none => []
+    | some h =>
+      if !hasHeader h strUpgrade || getHeader h strUpgrade != strWebsocket ||
+          !(splitCommaSp [] (getHeader h strConnection)).contains strUpgrade then response400
+      else responseHead ++ acceptKey (getHeader h strKey) ++ [13, 10] ++
+          (if hasHeader h strProtocol then responseProtocol else []) ++ [13, 10]
+
 /-- what `WebSocketServer::process` writes for a request with `Upgrade: websocket`,
     `Connection: Upgrade` and the given `Sec-WebSocket-Key` -/
 def serverResponse (key : List UInt8) (hasProtocol : Bool) : List UInt8 :=
